@@ -80,8 +80,14 @@ def c03_struct(tier="quick", seed=0):
                 "_make_function_method", "_make_callable_method", "_make_object_method"):
         f = S.fn("microjs.vm", "VM." + fac)
         last = f.body[-1]
-        ok = isinstance(last, ast.Return) and _S_.unparse(last.value).startswith("methods.get(method, lambda *args: UNDEFINED)")
+        # ... possibly handed through VM._for_receiver(<that closure>, <the same factory>, ...), which only attaches the way to
+        # make the method again for the receiver given to call/apply/bind
+        txt = _S_.unparse(last.value) if isinstance(last, ast.Return) else ""
+        ok = txt.startswith("methods.get(method, lambda *args: UNDEFINED)") or txt.startswith(f"self._for_receiver(methods.get(method, lambda *args: UNDEFINED), self.{fac}, ")
         out.append(ob(f"C03.struct.method-table.{fac}", ok, "K3", f"{fac} returns methods.get(method, <undefined fn>): {ok}"))
+    fr = _S_.unparse(S.fn("microjs.vm", "VM._for_receiver"))
+    out.append(ob("C03.struct.method-table.rebinding", "return make(this_val, method)" in fr and "raise JSTypeError(" in fr and "fn._rebind = rebind" in fr and "return fn" in fr, "K3",
+                  "a method value made again for another receiver comes from the same factory with the same (literal) method name, or the call is a TypeError"))
     return out
 
 
@@ -233,6 +239,14 @@ def _exit_forms():
     return out
 
 
+_ERROR_ROUTES = [
+    "eval('(')", "eval('[' + Array(400).join('0,') + '0]')", "new Function('(')", "new Function('return [' + Array(400).join('0,') + '0]')()", "eval('throw 1')", "eval('null.x')",
+    "eval('undefinedName')", "eval(Array(3000).join('(') + '1')", "eval('function f(){' + Array(400).join('var a' + 'b; ') + '}')", "new RegExp('(')", "JSON.parse('{')", "'a'.repeat(-1)",
+    "new Array(-1)", "null.x", "undefinedName", "(1)()", "new (function(){}).call()", "[].reduce(function(){})", "var o = {}; Object.defineProperty(o, 'x', {get: function(){ return eval('(') }, enumerable: true}); Object.values(o)",
+    "[1].map(function(){ return eval('[' + Array(400).join('0,') + '0]') })", "'a'.replace(/a/, function(){ return new Function('(') })",
+]
+
+
 FORMS = _exit_forms() + [
     "var o = {R}; o.__class__", "var o = {R}; delete o._prototype; typeof o", "var o = {R}; for (var k in o) { k } 1",
     "var o = {R}; Object.keys(o).length", "var o = {R}; JSON.stringify(o)", "var o = {R}; o instanceof Object", "var o = {R}; typeof o",
@@ -268,7 +282,13 @@ FORMS = _exit_forms() + [
     "ASSERT: 'a'.replace(/a/, function () { return String(this === undefined); }) === 'true' && 'a'.replace('a', function () { return String(this === undefined); }) === 'true'",
     "ASSERT: [1].map(function () { return hostcheck(this); })[0] === true && [1].forEach(function () { hostkeep(this); }) === undefined",
     "[1].map(function () { return this; })", "[1].map(function () { return [this, {t: this}]; })",
+    # whatever a catch clause receives is a JavaScript value -- also for failures of nested code that are not script throws
+    # (refusals of the compiler, syntax errors, limits of the parser) and for errors raised by built-ins
+] + [
+    "var c = []; [" + ", ".join("function(){ " + t + " }" for t in _ERROR_ROUTES) + "].forEach(function (t) { try { t(); c.push('no error') } catch (e) { c.push(" + probe + ") } }); " + tail
+    for probe, tail in (("e", "c"), ("typeof e, e instanceof Error, String(e), hostcheck(e)", "c"), ("[e]", "c.concat(c)"), ("hostcheck(e) && (typeof e === 'object' || typeof e === 'number')", "ASSERT_ALL"))
 ]
+FORMS = [("ASSERT: " + f.replace("ASSERT_ALL", "c.every(function (x) { return x === true })")) if f.endswith("ASSERT_ALL") else f for f in FORMS]
 
 
 @groups.group(id="C03.bounded.forms", prop="C03", kind="B", functions=["microjs.vm:VM._execute_opcode", "microjs.context:Context._to_python"])
